@@ -81,7 +81,7 @@ fn alias_check(b: &AnyBuf, rng: &mut Rng, rep: &mut Report) -> Option<String> {
 
 fn histories(opts: &Opts, rep: &mut Report) {
     let mut rng = Rng::new(opts.shard_seed() ^ 0xC18);
-    let rounds = opts.budget(16 * 8, 16 * 300);
+    let rounds = opts.budget(16 * 60, 16 * 3000);
     for _ in 0..rounds {
         let seed = rng.next();
         let nthreads = *rng.pick(&[1usize, 1, 2, 4, 8]);
